@@ -26,8 +26,15 @@ Violation key:  <tool>:<class>:<kind>:<func>@<file>
 Execution strategy: every case first runs with unsymbolised reports (10-15 ms); each distinct raw report
 signature is then re-run once with symbolisation to compute its key.  A run that stops on one of the two
 "benign-to-continue" report kinds (alloc-dealloc-mismatch, load of an invalid enum value = copy of an
-uninitialised field) is re-run with that check neutralised (alloc_dealloc_mismatch=0:malloc_fill_byte=0), and if
-it still stops on the enum load, on the plain binary, so the remainder of the execution is observed too.
+uninitialised field) is re-run with that check neutralised (alloc_dealloc_mismatch=0:malloc_fill_byte=0); a run that
+stops on a UBSan report after which execution could continue (invalid enum load, null pointer passed to a nonnull
+parameter, reference bound to null) is re-run on the plain binary (signals / aborts only, key frame "noframe"), so the
+remainder of the execution is observed too.  All reports of all re-runs are recorded.
+
+Key frame: frames in the generic container / serialisation layer (GENERIC_FILES, GENERIC_FUNCS: prevector, Span, serialize.h,
+streams.h, uint256.h, primitives/transaction.h, CScript copy constructors) are passed over when a more specific in-tree
+frame follows, so that e.g. every failure to deserialise a transaction in tap is one key (parse_tx@instance.cpp) rather than
+one per throwing helper.  For an uncaught exception the stack is that of the last (re)throw.
 """
 import hashlib
 import json
@@ -763,8 +770,10 @@ def run(ctx):
                     continue
                 g = groups.setdefault((tool, v, rs), [0, None, None])
                 g[0] += 1
-                if g[1] is None or size < g[1]:
-                    g[1], g[2] = size, (d, v)
+                # representative = smallest input; an input for the tool's own binary is preferred over the argv-mode harness form
+                rank = (1 if (d[0] in ("B", "D", "P") and bases[d[1]].mode == "argv") else 0, size)
+                if g[1] is None or rank < g[1]:
+                    g[1], g[2] = rank, (d, v)
             glist = sorted(groups.items(), key=lambda kv: repr(kv[0]))
             sym = pool.map(work_sym, [(gi, g[1][2][0], g[1][2][1]) for gi, g in enumerate(glist)], chunksize=1)
     finally:
@@ -780,6 +789,7 @@ def run(ctx):
         e["count"] += cnt
         if e["size"] is None or size < e["size"]:
             e.update(size=size, case=c, variant=v, excerpt=exc, rc=rc, sig=sig)
+        e.setdefault("bases", set()).add(c["base"])
     violations = []
     for key in sorted(by_key):
         e = by_key[key]
